@@ -7,8 +7,8 @@
 //   output  off=<k> str=<hex of the returned string> buf=<hex of the buffer afterwards>
 //   case    lookup <tree> <hexaddr;...> <hexname;...>
 //   output  a=<id>;...  i=<idx>;...     id = index path i.j.k of the returned port, - = NULL
-//   case    search <tree> <hexloc> <hexneedle> <opt 0|1|2> <bufsize>
-//   output  n=<k> e=<hexname>:<len>:<hex of the len bytes at data|N>;... msg=<ret>:<hex of the reply>
+//   case    search <tree> <hexloc> <hexneedle> <opt 0|1|2> <bufsize> <reply_with_query 0|1>
+//   output  q=<hexloc>:<hexneedle>|N n=<k> e=<hexname>:<len>:<hex of the len bytes at data|N>;... msg=<ret>:<hex of the reply>
 #include "hcommon.h"
 #include <rtosc/ports.h>
 #include <rtosc/rtosc.h>
@@ -121,7 +121,7 @@ int main()
             puts(o.str().c_str());
             continue;
         }
-        if(f.size() >= 6 && f[0] == "search") {
+        if(f.size() >= 7 && f[0] == "search") {
             Tree T;
             size_t i = 0;
             RunPorts *root = T.parse(split(f[1], ','), i);
@@ -133,23 +133,27 @@ int main()
                                  : o == 1 ? path_search_opts::sorted
                                           : path_search_opts::sorted_and_unique_prefix;
             size_t bufsize = (size_t)atol(f[5].c_str());
-            size_t max_ports = T.maxtab ? T.maxtab : 1;
+            bool rwq = f[6] == "1";
+            size_t max_ports = (T.maxtab ? T.maxtab : 1) + (rwq ? 1 : 0);
             size_t max_args = max_ports << 1, max_types = max_args + 1;
             char *types = (char *)malloc(max_types);
             rtosc_arg_t *args = (rtosc_arg_t *)malloc(max_args * sizeof(rtosc_arg_t));
             memset(types, 0x55, max_types);
             memset(args, 0x55, max_args * sizeof(rtosc_arg_t));
-            path_search(*root, (const char *)lb.p, (const char *)nb.p, types, max_types, args, max_args, opt, false);
+            path_search(*root, (const char *)lb.p, (const char *)nb.p, types, max_types, args, max_args, opt, rwq);
             std::ostringstream out;
             size_t nt = strlen(types);
-            bool shape = nt % 2 == 0;
-            for(size_t k = 0; k < nt; ++k) if(types[k] != (k % 2 ? 'b' : 's')) shape = false;
+            size_t k0 = rwq ? 2 : 0;
+            bool shape = nt % 2 == 0 && nt >= k0;
+            for(size_t k = 0; k < nt; ++k) if(types[k] != ((k % 2 && k >= k0) ? 'b' : 's')) shape = false;
             if(!shape) out << "BADTYPES:" << types;
             else {
-                out << "n=" << nt / 2 << " e=";
-                if(nt == 0) out << "-";
-                for(size_t k = 0; k < nt; k += 2) {
-                    if(k) out << ";";
+                if(rwq) out << "q=" << hex(args[0].s, strlen(args[0].s)) << ":" << hex(args[1].s, strlen(args[1].s));
+                else out << "q=N";
+                out << " n=" << (nt - k0) / 2 << " e=";
+                if(nt == k0) out << "-";
+                for(size_t k = k0; k < nt; k += 2) {
+                    if(k > k0) out << ";";
                     const char *nm = args[k].s;
                     out << (nm ? hex(nm, strlen(nm)) : std::string("NULL")) << ":" << args[k + 1].b.len << ":";
                     if(args[k + 1].b.data) out << hex(args[k + 1].b.data, args[k + 1].b.len);
@@ -164,7 +168,7 @@ int main()
             ExactBuf qb(std::vector<uint8_t>(q, q + ql));
             char *msgbuf = (char *)malloc(bufsize ? bufsize : 1);
             memset(msgbuf, 0xAA, bufsize);
-            size_t ret = path_search(*root, (const char *)qb.p, max_ports, msgbuf, bufsize, opt, false);
+            size_t ret = path_search(*root, (const char *)qb.p, max_ports, msgbuf, bufsize, opt, rwq);
             out << " msg=" << ret << ":" << hex(msgbuf, ret <= bufsize ? ret : 0);
             free(msgbuf);
             puts(out.str().c_str());
